@@ -18,14 +18,14 @@ use crate::suites::transport::{fmt_pos, fmt_region, parse_pos, parse_region};
 use crate::util::*;
 use kira::sound::static_sound::{StaticSoundData, StaticSoundHandle, StaticSoundSettings};
 use kira::sound::{EndPosition, PlaybackPosition, Region, Sound, SoundData};
-use kira::{Decibels, Frame, Panning, PlaybackRate, StartTime, Value};
+use kira::{Decibels, Frame, Panning, Parameter, PlaybackRate, StartTime, Value};
 use std::sync::atomic::{AtomicU64, Ordering};
 use std::sync::Arc;
 use std::time::Duration;
 
 /// how often each oracle's premise held (printed to stderr when `KV_ORACLE_STATS` is set)
-static CHECKS: [AtomicU64; 8] = [const { AtomicU64::new(0) }; 8];
-const CHECK_NAMES: [&str; 8] = [
+static CHECKS: [AtomicU64; 9] = [const { AtomicU64::new(0) }; 9];
+const CHECK_NAMES: [&str; 9] = [
 	"walk_frames",
 	"seek_lands",
 	"silent_chunks",
@@ -34,6 +34,7 @@ const CHECK_NAMES: [&str; 8] = [
 	"dc_envelope_frames",
 	"stopped_final_ops",
 	"command_edges",
+	"param_real_time_frames",
 ];
 fn tick(i: usize) {
 	CHECKS[i].fetch_add(1, Ordering::Relaxed);
@@ -136,6 +137,16 @@ struct Run {
 	/// index-coded ramp played forwards at a dyadic rate below 1: interpolation must be exact
 	ramp: bool,
 	last_ramp: Option<f32>,
+	/// C06 at the level of the sound ("a tween on a sound's parameter progresses in real time whatever the sound's
+	/// playback state; after a resume the value is where the closed form says"): reference parameters
+	/// (`kira::Parameter`, whose agreement with the closed form is the subject of suite `param`) that are given
+	/// every set_volume / set_panning when the sound reads it and are updated with the real time of EVERY callback -
+	/// playing, fading, paused, waiting to resume, waiting for its start time.
+	shadow_vol: Parameter<Decibels>,
+	shadow_pan: Parameter<Panning>,
+	/// the output shows volume and panning exactly: a unit DC sound looping over its whole length at the fixed rate 1,
+	/// no fade-in at creation, an immediate or delayed start, no rate / loop / seek command so far
+	shadow_visible: bool,
 }
 
 impl Run {
@@ -330,6 +341,15 @@ fn make(tok: &[&str], ids: &Ids) -> Run {
 			&& start_idx == 0
 			&& matches!(rate_fixed, Some(r) if r == 0.5 || r == 0.25),
 		last_ramp: None,
+		shadow_vol: Parameter::new(volume, Decibels::IDENTITY),
+		shadow_pan: Parameter::new(panning, Panning::CENTER),
+		shadow_visible: tok[3] == "dc=3f800000"
+			&& n > 0
+			&& !mute
+			&& rate_fixed == Some(1.0)
+			&& lp == Some((0, n))
+			&& fade_in.is_none()
+			&& !matches!(start_time, StartTime::ClockTime(_)),
 		cfg,
 	}
 }
@@ -446,16 +466,23 @@ fn exec(case: &[String], out: &mut Out) {
 				for c in r.pending.drain(..) {
 					let t: Vec<&str> = c.split_whitespace().collect();
 					match t[0] {
+						// (C06) the sound has just read this command: so does the reference parameter
+						"vol" => r.shadow_vol.set(parse_value::<Decibels>(t[1], &ids), parse_tween(t[2], &ids)),
+						"pan" => r.shadow_pan.set(parse_value::<Panning>(t[1], &ids), parse_tween(t[2], &ids)),
+						"rate" => r.shadow_visible = false,
 						"seekto" => {
 							resync = true;
+							r.shadow_visible = false;
 							r.pending_seek = Some(p64(t[1]));
 						}
 						"seekby" => {
 							resync = true;
+							r.shadow_visible = false;
 							r.pending_seek = None;
 						}
 						"loop" => {
 							resync = true;
+							r.shadow_visible = false;
 							let reg = parse_region(t[1]);
 							r.loop_ever = r.loop_ever || reg.is_some();
 							let lp = reg.map(|x| region_samples(x, r.cfg.sr, r.cfg.n));
@@ -523,6 +550,30 @@ fn exec(case: &[String], out: &mut Out) {
 					}
 				}
 				r.elapsed += dt * len as f64;
+				// --- C06: the sound's volume and panning follow their tweens in real time, whatever its playback state ---
+				// the reference parameters get the time of this callback like every other one ...
+				r.shadow_vol.update(dt * len as f64, &info);
+				r.shadow_pan.update(dt * len as f64, &info);
+				// ... and where the output shows volume and panning exactly (Playing before and after the call: the fade is
+				// at unity; one source frame per output frame: the resampler hands out the DC level itself), each frame
+				// is the DC level times the reference volume, panned by the reference panning, bit for bit
+				let started = match r.cfg.delay_ns {
+					None => r.cfg.start_imm,
+					Some(d) => r.elapsed * 1e9 >= d as f64 + 1000.0,
+				};
+				if r.shadow_visible && started && s_before == 0 && s_after == 0 && r.cfg.sr as f64 * dt == 1.0 {
+					for (i, f) in buf.iter().enumerate() {
+						let t = (i + 1) as f64 / len as f64;
+						let want = (Frame::from_mono(1.0) * 1.0 * r.shadow_vol.interpolated_value(t).as_amplitude())
+							.panned(r.shadow_pan.interpolated_value(t));
+						tick(8);
+						if f.left.to_bits() != want.left.to_bits() || f.right.to_bits() != want.right.to_bits() {
+							out.oracle_fail("static_param_tween_not_in_real_time", l);
+							r.shadow_visible = false;
+							break;
+						}
+					}
+				}
 				if r.sound.finished() != (s_after == 6) {
 					out.oracle_fail("static_finished_vs_state", l);
 				}
@@ -598,7 +649,8 @@ fn exec(case: &[String], out: &mut Out) {
 									(None, Some(i)) => i == want,
 									(None, None) => want >= r.cfg.n,
 									(Some((ls, le)), Some(i)) => {
-										(i as i64 - want as i64).rem_euclid((le - ls) as i64) == 0
+										// (i128: an extreme seek saturates at usize::MAX)
+										(i as i128 - want as i128).rem_euclid((le - ls) as i128) == 0
 									}
 									(Some(_), None) => want >= r.cfg.n,
 								};
@@ -1170,6 +1222,16 @@ fn gen_case(rng: &mut Rng, out: &mut Vec<String>, stats: &mut Stats) {
 							gen_life_tween(rng, chunk_secs)
 						),
 						9 | 10 => format!("stop {}", gen_life_tween(rng, chunk_secs)),
+						// extreme seeks: the target saturates at usize::MAX frames; on a looping sound the wrap into the
+						// loop region used to iterate usize::MAX / loop length times (repaired: modular arithmetic)
+						11 if !dc && rng.chance(1, 6) => {
+							stats.hit("extreme_seek");
+							format!("seekto {}", o64(rng.pick(&[1e300, f64::MAX, 9007199254740994.0, 1.8446744073709552e19, 1e15, 5e-324])))
+						}
+						12 if !dc && rng.chance(1, 6) => {
+							stats.hit("extreme_seek");
+							format!("seekby {}", o64(rng.pick(&[1e300, -1e300, f64::MAX, f64::MIN, 9007199254740994.0, -1e19])))
+						}
 						11 if !dc => format!("seekto {}", o64(rng.uniform(-0.5, (n + 2) as f64) / sr as f64)),
 						12 if !dc => format!("seekby {}", o64(rng.uniform(-3.0, 3.0) / sr as f64)),
 						13 if !dc => format!("loop {}", if rng.chance(1, 4) { "none".to_string() } else { gen_valid_loop(rng, n, sr) }),
@@ -1348,9 +1410,131 @@ pub fn gen(rng: &mut Rng, n: usize, thorough: bool, stats: &mut Stats) -> Vec<St
 	for _ in 0..n {
 		out.push(format!("case {}", case));
 		case += 1;
-		gen_case(rng, &mut out, stats);
+		if rng.chance(1, 7) {
+			gen_tween_case(rng, &mut out, stats);
+		} else {
+			gen_case(rng, &mut out, stats);
+		}
 	}
 	out
+}
+
+/// C06 at the level of the sound: a unit DC sound looping over its whole length at rate 1 (its output shows volume
+/// and panning exactly), volume / panning tweens - immediate, delayed, clock-started; shorter than a callback,
+/// several callbacks long - set while the sound is playing, paused, waiting to resume or waiting for its delayed
+/// start, and resumed before, during and after the tween's time
+fn gen_tween_case(rng: &mut Rng, out: &mut Vec<String>, stats: &mut Stats) {
+	stats.hit("case_tween");
+	let sr = loop {
+		let sr = rng.pick(&[1u64, 2, 4, 8, 10, 1000, 44100, 48000]);
+		if sr as f64 * (1.0 / sr as f64) == 1.0 {
+			break sr;
+		}
+	};
+	let n = 1 + rng.below(40);
+	let dt = 1.0 / sr as f64;
+	let chunk_secs = dt * 8.0;
+	let start_time = match rng.below(5) {
+		0 => format!("del:{}", (chunk_secs * rng.uniform(0.2, 4.0) * 1e9) as u64),
+		_ => "imm".to_string(),
+	};
+	if rng.chance(1, 3) {
+		out.push(gen_info_clocks(rng));
+	}
+	if rng.chance(1, 6) {
+		out.push(format!("info.mods 3 {} {} {}", o64(rng.uniform(-0.5, 1.5)), o64(0.5), o64(1.0)));
+	}
+	let neutral = rng.chance(1, 2);
+	out.push(format!(
+		"new {} {} dc={} none {} n=0 n=0~n={} {} {} fix:{} {} none",
+		sr,
+		n,
+		o32(1.0),
+		start_time,
+		n,
+		rng.chance(1, 5) as u8,
+		gen_vol_value(rng, neutral),
+		o64(1.0),
+		gen_pan_value(rng, neutral)
+	));
+	stats.hit("new");
+	let param_cmd = |rng: &mut Rng| -> String {
+		// a tween in the time scale of the callbacks (`gen_life_tween`) or any tween at all (`gen_tween`)
+		let tw = if rng.chance(3, 4) { gen_life_tween(rng, chunk_secs) } else { gen_tween(rng) };
+		if rng.chance(2, 3) {
+			format!("vol {} {}", gen_vol_value(rng, false), tw)
+		} else {
+			format!("pan {} {}", gen_pan_value(rng, false), tw)
+		}
+	};
+	let callback = |rng: &mut Rng, out: &mut Vec<String>, stats: &mut Stats| {
+		out.push("start".to_string());
+		stats.hit("start");
+		for _ in 0..(if rng.chance(1, 5) { 2 } else { 1 }) {
+			let len = gen_chunk(rng);
+			out.push(format!("proc {} {}", len, o64(dt)));
+			stats.hit("proc");
+			stats.add("frames", len);
+		}
+	};
+	let mut push = |out: &mut Vec<String>, stats: &mut Stats, line: String| {
+		stats.hit(line.split(' ').next().unwrap());
+		out.push(line);
+	};
+	if rng.chance(1, 2) {
+		// the scripted shape: play, pause, set a parameter while paused, stay paused for a while, resume, listen
+		for _ in 0..rng.below(3) {
+			callback(rng, out, stats);
+		}
+		if rng.chance(1, 4) {
+			push(out, stats, param_cmd(rng));
+		}
+		push(out, stats, format!("pause {}", if rng.chance(2, 3) { "imm;0;lin".to_string() } else { gen_life_tween(rng, chunk_secs) }));
+		for _ in 0..rng.below(3) {
+			callback(rng, out, stats);
+		}
+		push(out, stats, param_cmd(rng));
+		if rng.chance(1, 4) {
+			push(out, stats, param_cmd(rng));
+		}
+		for _ in 0..(1 + rng.below(6)) {
+			callback(rng, out, stats);
+		}
+		let resume = match rng.below(6) {
+			0 => format!("resume del:{} {}", (chunk_secs * rng.uniform(0.1, 3.0) * 1e9) as u64, gen_life_tween(rng, chunk_secs)),
+			1 => format!("resume clk:{}:{}:{} imm;0;lin", rng.below(MAX_IDS as u64), rng.below(4), o64(0.0)),
+			2 => format!("resume imm {}", gen_life_tween(rng, chunk_secs)),
+			_ => "resume imm imm;0;lin".to_string(),
+		};
+		push(out, stats, resume);
+		for _ in 0..(3 + rng.below(6)) {
+			if rng.chance(1, 6) {
+				push(out, stats, gen_info_clocks(rng));
+			}
+			callback(rng, out, stats);
+		}
+	} else {
+		for _ in 0..rng.range(4, 18) {
+			while rng.chance(1, 2) {
+				let line = match rng.below(12) {
+					0..=4 => param_cmd(rng),
+					5 | 6 => format!("pause {}", gen_life_tween(rng, chunk_secs)),
+					7 | 8 => format!("resume imm {}", gen_life_tween(rng, chunk_secs)),
+					9 => format!("resume del:{} {}", (chunk_secs * rng.uniform(0.1, 3.0) * 1e9) as u64, gen_life_tween(rng, chunk_secs)),
+					10 => format!(
+						"resume clk:{}:{}:{} {}",
+						rng.below(MAX_IDS as u64),
+						rng.below(4),
+						o64(0.0),
+						gen_life_tween(rng, chunk_secs)
+					),
+					_ => gen_info_clocks(rng),
+				};
+				push(out, stats, line);
+			}
+			callback(rng, out, stats);
+		}
+	}
 }
 
 /// suite `static_ood`: inputs outside the hypotheses of the C04 theorems that are left, on purpose: loop regions
